@@ -129,6 +129,40 @@ def tlc(module, cfg=None, wd=None, workers=None, env=None, simulate=None, depth=
     return out
 
 
+def apalache(module, cinit, init, inv, length, wd, timeout=900):
+    """Run apalache-mc check on spec/<module>.tla.  Returns "ok" or "violation"; anything else is a tool error."""
+    mpath = os.path.join(SPEC, module + ".tla")
+    out_dir = os.path.join(wd, "apalache-out")
+    cmd = ["apalache-mc", "check", "--cinit=" + cinit, "--init=" + init, "--inv=" + inv, "--length=%d" % length, "--out-dir=" + out_dir, "--run-dir=" + os.path.join(wd, "apalache-run"), mpath]
+    t = time.time()
+    try:
+        p = subprocess.run(cmd, cwd=wd, stdout=subprocess.PIPE, stderr=subprocess.STDOUT, text=True, timeout=timeout)
+    except subprocess.TimeoutExpired:
+        raise ToolError("Apalache timed out after %ds on %s (%s, %s)" % (timeout, module, init, inv))
+    finally:
+        shutil.rmtree(out_dir, ignore_errors=True)
+    log("Apalache %s %s/%s/%s length %d: %.1fs rc=%d" % (os.path.basename(mpath), cinit, init, inv, length, time.time() - t, p.returncode))
+    if "EXITCODE: OK" in p.stdout and p.returncode == 0:
+        return "ok"
+    if p.returncode == 12 and "violated" in p.stdout:
+        return "violation"
+    log(p.stdout[-2000:])
+    raise ToolError("Apalache failed on %s (exit %d)" % (module, p.returncode))
+
+
+def inductive(module, wd, negatives=()):
+    """The three obligations of an inductive-invariant argument (Init => IndInv, IndInv /\\ Next => IndInv', IndInv => Safety) plus negative
+    controls: constant initialisers for which the inductive step must fail.  Returns None or the name of the obligation that failed."""
+    steps = [("base", "Init", "IndInv", 0), ("step", "IndInit", "IndInv", 1), ("safety", "IndInit", "Safety", 0)]
+    for name, init, inv, n in steps:
+        if apalache(module, "CInitCode", init, inv, n, wd) != "ok":
+            return name
+    for c in negatives:
+        if apalache(module, c, "IndInit", "IndInv", 1, wd) != "violation":
+            raise ToolError("negative control %s of %s is not refuted (the inductive argument is vacuous)" % (c, module))
+    return None
+
+
 def tlc_stats(out):
     """(generated, distinct) from a model-checking run; for -simulate the number of states checked."""
     ms = re.findall(r"^(\d+) states generated, (\d+) distinct states found", out, re.M)
